@@ -337,3 +337,102 @@ Definition bad (cases : list (string * result (list Z))) : list nat :=
   map fst (filter (fun p => negb (res_eqb (get_line_range (fst (snd p))) (snd (snd p)))) (combine (seq 0 (length cases)) cases)).
 Definition show (l : list nat) := String.concat "," (map Select.string_of_nat (firstn 30 l)).
 """
+
+
+# -------------------------------------------------------------------------------- translated definitions (tools/gen_c11b.py)
+# Model.Select is imported LAST: in the case terms Ok / Err / result are the model's; the translated code's monad is
+# referred to as PyMarker.Ok / PyMarker.Err.
+GEN_HEADER = """From Coq Require Import String Ascii List Bool Arith ZArith.
+From OV Require Import Model.PyMarker Gen.MarkerGen@INSPECT@.
+From OV Require Import Model.Select.
+Import ListNotations.
+Open Scope string_scope.
+Set Printing Width 100000. Set Printing Depth 100000.
+Definition L m o d c n := {| l_mnemonic := m; l_operands := o; l_directive := d; l_comment := c; l_number := n |}.
+Definition mkd n p := {| d_name := n; d_params := p |}.
+(* what the implementation did: a value or an exception class *)
+Inductive pyout (A : Type) := PO (a : A) | PE (e : PyMarker.err).
+Arguments PO {A} _.
+Arguments PE {A} _.
+Definition agree {A B} (eqb : A -> B -> bool) (g : PyMarker.res A) (p : pyout B) : bool :=
+  match g, p with
+  | PyMarker.Ok a, PO b => eqb a b
+  | PyMarker.Err e, PE e' => PyMarker.err_eqb e e'
+  | _, _ => false
+  end.
+Definition nums_eqb (k : list line) (ns : list nat) : bool := if list_eq_dec Nat.eq_dec (map l_number k) ns then true else false.
+Definition bz_eqb (a b : bool * Z) : bool := andb (Bool.eqb (fst a) (fst b)) (Z.eqb (snd a) (snd b)).
+Definition zz_eqb (a b : Z * Z) : bool := andb (Z.eqb (fst a) (fst b)) (Z.eqb (snd a) (snd b)).
+Definition idx_bad {C} (ok : C -> bool) (cases : list C) : list nat :=
+  map fst (filter (fun p => negb (ok (snd p))) (combine (seq 0 (length cases)) cases)).
+Definition show (l : list nat) := String.concat "," (map string_of_nat (firstn 30 l)).
+Definition file_of (files : list (list line)) (k : nat) : list line := nth k files [].
+Definition pk (x86 : bool) := if x86 then PX86 else PA64.
+"""
+
+PYERR = {"ValueError": "EValue", "IndexError": "EIndex", "TypeError": "EType", "AttributeError": "EAttr", "KeyError": "EKey"}
+
+
+def zlist(l):
+    return "[%s]" % "; ".join("(%d)%%Z" % x for x in l)
+
+
+def slist(l):
+    return "[%s]" % "; ".join(cs(x) for x in l)
+
+
+def pyout(r, render):
+    """('ok', value) | ('err', class name) -> Gallina term of type pyout _, or None when the class is not modelled"""
+    if r[0] == "ok":
+        return "(PO %s)" % render(r[1])
+    if r[1] in PYERR:
+        return "(PE %s)" % PYERR[r[1]]
+    return None
+
+
+def gen_direct_calls(rng, isa, n_lines):
+    """arguments for direct calls of match_bytes / find_marked_section on a parsed file of n_lines lines (well beyond
+    what the two wrappers pass: the translation must agree with CPython on all of them)"""
+    nop = NOP[isa]
+    mb = []
+    for _ in range(2):
+        idx = rng.choice([rng.randrange(-n_lines - 2, n_lines + 3), rng.randrange(0, n_lines + 1), rng.randrange(0, n_lines + 1)])
+        bl = rng.choice([nop, nop, nop[:rng.randrange(0, len(nop))], [], [rng.randrange(256) for _ in range(rng.randrange(1, 4))], nop + [7]])
+        mb.append((idx, list(bl)))
+    fs = []
+    for _ in range(2):
+        fs.append(dict(
+            mov_instr=rng.choice([["mov", "movl"], ["mov"], ["movl"], [], ["movq", "MOVL", "addl", "movk"], ["mov", "movl", "movz", "cmpl", "cmp"]]),
+            mov_reg=rng.choice(["ebx", "x1", "eax", "EBX", "x2", "w1", "rbx"]),
+            mov_vals=rng.choice([[111, 222], [111, 222], [222, 111], [111], [], [5, 111], [111, 111], [112, 223], [1, 0]]),
+            nop_bytes=rng.choice([nop, nop, [], nop[:1], [rng.randrange(256)]]),
+            reverse=rng.random() < 0.5,
+            comments=rng.choice([None, {"start": "OSACA-BEGIN", "end": "OSACA-END"}, {"start": "OSACA-BEGIN", "end": "OSACA-END"},
+                                 {"start": "OSACA-BEGIN"}, {"end": "OSACA-END"}, {"start": "a comment", "end": "OSACA-END."},
+                                 {"begin": "OSACA-BEGIN", "start": "LLVM-MCA-BEGIN", "end": "osaca-begin"}])))
+    return mb, fs
+
+
+def gen_lines_arg(rng, numbers):
+    """an args.lines value for a file whose parsed lines carry `numbers`: None, '', well-formed (single, range, nested,
+    overlapping, duplicated, unordered, partly outside the file) or malformed"""
+    k = rng.random()
+    if k < 0.1 or not numbers:
+        return rng.choice([None, ""])
+    lo, hi = min(numbers), max(numbers)
+    if k < 0.8:
+        items = []
+        for _ in range(rng.randrange(1, 5)):
+            a = rng.randrange(max(1, lo - 1), hi + 2)
+            if rng.random() < 0.45:
+                items.append(rng.choice(["%d", " %d", "%d ", "+%d", "0%d"]) % a)
+            else:
+                b = a + rng.choice([0, 1, 2, 3, 7, -1, hi])
+                items.append("%d%s%d" % (a, rng.choice("-:"), b))
+        if rng.random() < 0.3:
+            items.append(rng.choice(items))
+        if rng.random() < 0.3:
+            items.append("%d-%d" % (lo, hi))
+        rng.shuffle(items)
+        return ",".join(items)
+    return ",".join(rng.choice(["5", "7-9", "", "a", "5-", "-5", "1-2-3", "0x10", "1_0", "4.0", ":", "3--4", "2\t"]) for _ in range(rng.randrange(1, 3)))
